@@ -39,7 +39,7 @@ manifest = {
     ],
     "checks": checks,
     "not_applicable": na,
-    "notes": "Every check is `./check <id>`; it regenerates lean/ArrowModel/Generated from /repo, rebuilds proofs incrementally, rebuilds the harness against /repo's working tree, runs the correspondence, writes evidence/<id>.json. Properties not yet claimed are listed under not_applicable with reason 'not yet built' until their check lands.",
+    "notes": "Every check is `./check <id>`; it regenerates lean/ArrowModel/Generated from /repo, rebuilds proofs incrementally, rebuilds the harness against /repo's working tree, runs the correspondence, writes evidence/<id>.json. All 20 properties are claimed (not_applicable is empty). No hook commits exist in /repo (hooks.source_commits is empty); the commits in /repo after the base snapshot are unguarded `fix:` repairs of genuine defects, each recorded as a `fixed:` line in known_findings.txt.",
 }
 json.dump(manifest, open(os.path.join(VERIF, "MANIFEST.json"), "w"), indent=1)
 print("MANIFEST.json: %d checks, %d not_applicable" % (len(checks), len(na)))
